@@ -4,7 +4,22 @@ kinds
   knapsack       dimod.generators.random_knapsack / knapsack
   binpacking     dimod.generators.random_bin_packing / bin_packing
   multiknapsack  dimod.generators.random_multi_knapsack / multi_knapsack
-  random         uniform, randint, gnp_random_bqm, gnm_random_bqm, ran_r, doped, power_r
+  random         uniform, randint, gnp_random_bqm, gnm_random_bqm, ran_r, doped, power_r, frustrated_loop, chimera_anticluster
+
+Coverage map of the "random-model generators" clause (draw only from the declared range, on the declared graph,
+reproducible from the seed; "all seeds and parameter settings"):
+  range of linear / quadratic biases AND of the offset      uniform, randint (low/high unset, degenerate low == high, negative),
+                                                            gnp/gnm (default [0,1) or bias_generator), ran_r / power_r (+-1..r, no 0),
+                                                            doped (+-1 by fm / p incl. p = 0, 1), chimera (+-1 / +-multiplier incl.
+                                                            multiplier 0, negative), frustrated_loop (integers, |J| <= R)
+  all seeds                                                 every case: its own seed (incl. 0) + SEED_SWEEP derived seeds
+  declared graph                                            graph forms int / (nodes, edges) / (n, edges) / edge list / networkx, edges as
+                                                            tuples or lists, empty graphs, isolated nodes, two-edge lists (known finding);
+                                                            chimera: m, n, t incl. 0 and n / t omitted, subgraph= (rare keyword)
+  reproducible, independent of numpy's global state         every case (same seed twice around np.random.seed, mutated first result)
+  seed forms                                                int, RandomState (gnp/gnm), Generator (power_r)
+  keyword options                                           cls= (deprecated), vartype as str / enum / set, fm, plant_solution,
+                                                            planted_solution (deprecated), cycle_predicates, max_failed_cycles, R
 
 The CQM kinds run the real generator, read the instance data back from the returned model, judge the
 data against the docstring (ranges, capacity formula) and then compare -- for every assignment of
@@ -49,6 +64,7 @@ ENUM_MAX_VARS = 12          # all 2^n assignments up to here
 API_ALL_MAX = 256           # per-sample API (check_feasible/violations/energy) on all rows up to here
 API_EXTRA = 100             # otherwise: all feasible rows (capped) + this many other rows
 API_FEASIBLE_CAP = 150
+SEED_SWEEP = 16            # further seeds per random-generator case (range / support clauses)
 SAMPLED_ROWS = 60           # rows for models with more than ENUM_MAX_VARS variables
 
 CORPUS = {
@@ -108,7 +124,7 @@ def _is_pow2(d):
 #                       generate the structure
 #  doped_isolated_nodes doped() drops declared nodes that have no edge (uniform/ran_r keep them)
 #  capacity_float       random_bin_packing: int(n*mean(w)/5) is 22 for weights summing to 115
-REPORT_ONLY = {'gnm_structure', 'doped_isolated_nodes', 'capacity_float'}
+REPORT_ONLY = {'gnm_structure', 'doped_isolated_nodes', 'capacity_float', 'fcl_list_edges'}
 
 
 # the CQM and the instance data of the last knapsack / bin packing / multi-knapsack case, for the Coq-side
@@ -241,7 +257,7 @@ def _gen_multiknapsack(rng, tier):
 # ----------------------------------------------------------------------------------------------
 # case generation: random-model generators
 
-SUBS = ['uniform', 'randint', 'gnp', 'gnm', 'ran_r', 'doped', 'power_r']
+SUBS = ['uniform', 'randint', 'gnp', 'gnm', 'ran_r', 'doped', 'power_r', 'fcl', 'chimera']
 FORMS = ['int', 'pair', 'pair_int', 'edges', 'nx']
 
 
@@ -304,6 +320,41 @@ def _gen_random(rng, tier):
             c["p"] = rng.choice(["0", "1/4", "1/2", "3/4", "1"])
         else:
             c["m"] = rng.randint(0, n * (n - 1) // 2 + 2)
+    elif sub == 'fcl':
+        # frustrated_loop: needs cycles, so a dense graph on 3..6 nodes (or whatever _gen_graph gives: then it may
+        # legitimately raise RuntimeError for lack of cycles)
+        if rng.random() < 0.7:
+            n = rng.randint(3, 6)
+            form = rng.choice(['int', 'pair', 'edges', 'nx'])
+            if form == 'int':
+                c["graph"] = {"form": "int", "n": n}
+            else:
+                nodes = gen.rand_labels(rng, n)
+                edges = [[enc_label(nodes[i]), enc_label(nodes[j])] for i, j in itertools.combinations(range(n), 2)
+                         if rng.random() < 0.8]
+                if len(edges) == 2:
+                    edges = edges[:1]
+                c["graph"] = {"form": form, "n": n, "nodes": [enc_label(x) for x in nodes], "edges": edges,
+                              "edge_type": rng.choice(["tuple", "tuple", "tuple", "tuple", "list"])}
+        else:
+            c["graph"] = _gen_graph(rng)
+            if c["graph"].get("edge_type") == "list" and rng.random() < 0.7:
+                c["graph"]["edge_type"] = "tuple"
+        c["num_cycles"] = rng.choice([1, 1, 2, 3, 5, 8])
+        c["R"] = rng.choice([None, None, 1, 1, 2, 3])
+        c["plant"] = rng.choice([None, True, False])
+        c["planted"] = rng.random() < 0.25
+        c["bad"] = rng.choice([None] * 8 + ["num_cycles", "R", "max_failed_cycles"])
+        c["min_len"] = rng.choice([None, None, None, 4])
+    elif sub == 'chimera':
+        c["m"] = rng.choice([0, 1, 1, 2, 2, 3])
+        c["n"] = rng.choice([None, None, 0, 1, 2, 3])
+        c["t"] = rng.choice([None, None, 0, 1, 2, 3, 4])
+        if c["m"] * (c["n"] if c["n"] is not None else c["m"]) * (c["t"] or 4) > 40:
+            c["t"] = 2
+        c["multiplier"] = rng.choice([None, None, "2", "1/2", "-3", "0", "5"])
+        c["sub_keep"] = rng.choice([None, None, None, "3/4", "1/2"])
+        c["cls"] = rng.random() < 0.1
     elif sub in ('ran_r', 'power_r'):
         c["graph"] = _gen_graph(rng)
         c["r"] = rng.randint(1, 5)
@@ -947,7 +998,220 @@ def _bias_gen(spec):
     return lambda k: rs.randint(lo, hi + 1, size=k).astype(np.float64)
 
 
+def _chimera_edges(m, n, t):
+    """Chimera(m, n, t), written down independently: node ((i*n + j)*2 + u)*t + k ; a tile is K_{t,t} between its two
+    shores ; shore 0 couples vertically (i, i+1), shore 1 horizontally (j, j+1), same k"""
+    def idx(i, j, u, k):
+        return ((i * n + j) * 2 + u) * t + k
+    inner, outer = set(), set()
+    for i in range(m):
+        for j in range(n):
+            for k0 in range(t):
+                for k1 in range(t):
+                    inner.add(frozenset((idx(i, j, 0, k0), idx(i, j, 1, k1))))
+            for k in range(t):
+                if i + 1 < m:
+                    outer.add(frozenset((idx(i, j, 0, k), idx(i + 1, j, 0, k))))
+                if j + 1 < n:
+                    outer.add(frozenset((idx(i, j, 1, k), idx(i, j + 1, 1, k))))
+    return inner, outer
+
+
+def _run_chimera(c):
+    fails = Fails()
+    feats = {"kind": "random", "sub": "chimera"}
+    seed = c["seed"]
+    m = c["m"]
+    n = c["n"] if c["n"] is not None else m
+    t = c["t"] if c["t"] is not None else 4
+    mult = Fraction(c["multiplier"]) if c.get("multiplier") is not None else Fraction(3)
+    args = [m] + ([c["n"]] if c["n"] is not None or c["t"] is not None else []) + ([c["t"]] if c["t"] is not None else [])
+    if c["n"] is None and c["t"] is not None:
+        args = [m, None, c["t"]]
+    kw = {}
+    if c.get("multiplier") is not None:
+        kw["multiplier"] = float(mult)
+    if c.get("cls"):
+        kw["cls"] = dimod.BinaryQuadraticModel
+    inner, outer = _chimera_edges(m, n, t)
+    nodes = list(range(2 * m * n * t))
+    if c.get("sub_keep") is not None:
+        rs = _case_rng(c, "sub")
+        keep = Fraction(c["sub_keep"])
+        nodes = [v for v in nodes if rs.random() < keep]
+        es = [e for e in sorted(map(sorted, inner | outer)) if e[0] in nodes and e[1] in nodes and rs.random() < keep]
+        rs.shuffle(nodes)
+        kw["subgraph"] = (list(nodes), [tuple(e) if rs.random() < 0.5 else (e[1], e[0]) for e in es])
+        inner = {e for e in inner if sorted(e) in es}
+        outer = {e for e in outer if sorted(e) in es}
+        feats["subgraph"] = True
+    desc = f"chimera_anticluster({', '.join(map(repr, args))}, seed={seed}, {kw})"
+
+    def call(sd):
+        with warnings.catch_warnings():
+            warnings.simplefilter("ignore", DeprecationWarning)
+            return DG.chimera_anticluster(*args, seed=sd, **kw)
+    try:
+        bqm = call(seed)
+    except Exception as e:
+        fails.add('exception', f"{desc} raised {type(e).__name__}: {e}")
+        return _finish(c, fails, feats, False, {})
+    signs = set()
+    for k_ in range(1 + SEED_SWEEP):
+        sd = seed if k_ == 0 else (seed + 7919 * k_) % (2 ** 31 - 1)
+        b = bqm if k_ == 0 else call(sd)
+        tag = f"[seed {sd}] "
+        if b.vartype is not dimod.SPIN:
+            fails.add('vartype', f"{desc}: {tag}vartype {b.vartype!r}")
+        if sorted(b.variables) != sorted(nodes):
+            fails.add('graph', f"{desc}: {tag}variables {sorted(b.variables)!r}, declared nodes {sorted(nodes)!r}")
+        if c.get("sub_keep") is not None and list(b.variables) != list(nodes):
+            fails.add('graph', f"{desc}: {tag}variables not in the order of the subgraph's node list")
+        got = {frozenset(e): F(x) for e, x in b.quadratic.items()}
+        if set(got) != inner | outer:
+            fails.add('graph', f"{desc}: {tag}interactions differ from the Chimera edges: missing "
+                      f"{sorted(map(sorted, (inner | outer) - set(got)))[:4]!r}, extra {sorted(map(sorted, set(got) - (inner | outer)))[:4]!r}")
+        for e, x in got.items():
+            want = {Fraction(1), Fraction(-1)} if e in inner else {mult, -mult}
+            if x not in want:
+                fails.add('range', f"{desc}: {tag}{'intra' if e in inner else 'inter'}-tile interaction {sorted(e)!r} = {x}, allowed {sorted(want)!r}")
+            signs.add(x > 0)
+        if any(F(x) != 0 for x in b.linear.values()) or F(b.offset) != 0:
+            fails.add('range', f"{desc}: {tag}linear biases / offset are not zero")
+        if fails.items:
+            break
+    if not fails.items:
+        np.random.seed(999)
+        b2 = call(seed)
+        if b2 is bqm or not (bqm.is_equal(b2) and list(b2.variables) == list(bqm.variables)):
+            fails.add('seed', f"{desc}: two calls with the same seed differ")
+        if len(inner | outer) >= 4 and mult != 0 and len(signs) < 2:
+            fails.add('seed', f"{desc}: every interaction has the same sign for {1 + SEED_SWEEP} seeds")
+    return _finish(c, fails, feats, len(nodes) > 0, {"num_variables": len(nodes), "num_interactions": len(inner | outer)})
+
+
+def _run_fcl(c):
+    fails = Fails()
+    feats = {"kind": "random", "sub": "fcl", "form": c["graph"]["form"]}
+    seed = c["seed"]
+    if c["graph"]["form"] == 'nx' and not _nx_ok():
+        return _finish(c, fails, dict(feats, skipped="networkx"), False, {})
+    garg, nodes, edges, gdesc, amb = _graph_arg(c["graph"])
+    kw = {}
+    R = c.get("R")
+    if R is not None:
+        kw["R"] = R
+    if c.get("plant") is not None:
+        kw["plant_solution"] = c["plant"]
+    plant = c.get("plant") is not False
+    planted = None
+    if c.get("planted") and nodes:
+        rs = _case_rng(c, "planted")
+        planted = {v: rs.choice((-1, 1)) for v in nodes}
+        kw["planted_solution"] = dict(planted)
+    if c.get("min_len"):
+        L = c["min_len"]
+        kw["cycle_predicates"] = (lambda cyc: len(cyc) >= L,)
+        kw["max_failed_cycles"] = 400
+    ncyc = c["num_cycles"]
+    if c.get("bad"):
+        bkw = dict(kw)
+        bargs = [garg(), ncyc]
+        if c["bad"] == "num_cycles":
+            bargs[1] = 0
+        else:
+            bkw[c["bad"]] = 0
+        try:
+            with warnings.catch_warnings():
+                warnings.simplefilter("ignore", DeprecationWarning)
+                DG.frustrated_loop(*bargs, seed=seed, **bkw)
+            fails.add('guard', f"frustrated_loop({gdesc}, ...) accepted {c['bad']} = 0")
+        except ValueError:
+            pass
+        except Exception as e:
+            if not amb and not (isinstance(e, TypeError) and "unhashable" in str(e)):
+                fails.add('guard', f"frustrated_loop({gdesc}, ...) with {c['bad']} = 0 raised {type(e).__name__}: {e}")
+    desc = f"frustrated_loop({gdesc}, {ncyc}, seed={seed}, {({k: v for k, v in kw.items() if k != 'cycle_predicates'})})"
+    gwhat = 'graph_form_edgelist2' if amb else 'graph'
+
+    def call(sd):
+        with warnings.catch_warnings():
+            warnings.simplefilter("ignore", DeprecationWarning)
+            return DG.frustrated_loop(garg(), ncyc, seed=sd, **kw)
+    found = 0
+    first = None
+    for k_ in range(1 + SEED_SWEEP // 2):
+        sd = seed if k_ == 0 else (seed + 7919 * k_) % (2 ** 31 - 1)
+        tag = f"[seed {sd}] "
+        try:
+            b = call(sd)
+        except RuntimeError as e:
+            if "below requested" in str(e):
+                continue             # documented: fewer cycles found than requested
+            fails.add('exception', f"{desc} {tag}raised RuntimeError: {e}")
+            break
+        except Exception as e:
+            if not nodes and isinstance(e, ValueError):
+                break                # a graph without nodes has no loop; an error is the documented outcome
+            if isinstance(e, TypeError) and "unhashable" in str(e) and c["graph"].get("edge_type") == "list":
+                # frustrated_loop uses the edges as dict keys: edges given as LISTS (accepted by every other generator
+                # through graph_argument) raise TypeError; no model is produced - reported, not a violation
+                fails.add('fcl_list_edges', f"{desc} raised {type(e).__name__}: {e}")
+            else:
+                fails.add(gwhat if amb else 'exception', f"{desc} {tag}raised {type(e).__name__}: {e}")
+            break
+        found += 1
+        if k_ == 0:
+            first = b
+        if b.vartype is not dimod.SPIN:
+            fails.add('vartype', f"{desc}: {tag}vartype {b.vartype!r}")
+        if set(b.variables) != set(nodes) or len(b.variables) != len(nodes):
+            fails.add(gwhat, f"{desc}: {tag}variables {list(b.variables)!r}, declared nodes {nodes!r}")
+            break
+        got = {frozenset(e): F(x) for e, x in b.quadratic.items()}
+        if set(got) != set(edges):
+            fails.add(gwhat, f"{desc}: {tag}interactions {sorted(map(tuple, got), key=repr)!r} differ from the declared edges")
+            break
+        for e, x in got.items():
+            if x.denominator != 1 or (R is not None and abs(x) > R):
+                fails.add('range', f"{desc}: {tag}interaction {tuple(e)!r} = {x}: not an integer of absolute value <= R")
+        if any(F(x) != 0 for x in b.linear.values()) or F(b.offset) != 0:
+            fails.add('range', f"{desc}: {tag}linear biases / offset are not zero")
+        if not any(x != 0 for x in got.values()):
+            fails.add('range', f"{desc}: {tag}{ncyc} loops were found but every interaction is zero")
+        # the planted assignment (all +1, or the given one) and its negation are ground states
+        if plant and len(nodes) <= 8 and not fails.items:
+            order = list(b.variables)
+            energies = b.energies((np.array(list(itertools.product((-1, 1), repeat=len(order))), dtype=np.int8), order))
+            emin = F(min(energies)) if len(energies) else Fraction(0)
+            ps = planted if planted is not None else {v: 1 for v in order}
+            for sgn in (1, -1):
+                e0 = F(b.energy({v: sgn * ps[v] for v in order}))
+                if e0 != emin:
+                    fails.add('planted', f"{desc}: {tag}the planted assignment{' (negated)' if sgn < 0 else ''} has energy {e0}, "
+                              f"the minimum is {emin}")
+        # every loop is frustrated: sum over loops (len - 2) with one violated edge each => the minimum is > -sum|J|
+        if not plant and len(nodes) <= 8 and not fails.items and any(x != 0 for x in got.values()):
+            order = list(b.variables)
+            energies = b.energies((np.array(list(itertools.product((-1, 1), repeat=len(order))), dtype=np.int8), order))
+            if ncyc == 1 and F(min(energies)) != -sum(abs(x) for x in got.values()) + 2:
+                fails.add('planted', f"{desc}: {tag}a single loop must be frustrated by exactly one edge: minimum {F(min(energies))}, "
+                          f"sum |J| = {sum(abs(x) for x in got.values())}")
+        if fails.items:
+            break
+    if first is not None and not fails.items:
+        np.random.seed(4242)
+        b2 = call(seed)
+        if b2 is first or not first.is_equal(b2):
+            fails.add('seed', f"{desc}: two calls with the same seed differ")
+    return _finish(c, fails, feats, found > 0, {"found": found})
+
+
 def _run_random(c):
+    if c["sub"] == 'fcl':
+        return _run_fcl(c)
+    if c["sub"] == 'chimera':
+        return _run_chimera(c)
     fails = Fails()
     sub = c["sub"]
     feats = {"kind": "random", "sub": sub}
@@ -1114,6 +1378,30 @@ def _run_random(c):
     for (u, v), b in bqm.quadratic.items():
         check_quad(f"quadratic[{u!r},{v!r}]", F(b))
     check_off("offset", F(bqm.offset))
+    # --- "for all seeds": the range / support clauses are re-examined for SEED_SWEEP further seeds derived from the
+    # case's seed, so that a draw that leaves the declared range with probability ~1/(high-low+2) per seed (e.g. only
+    # the offset, only the last linear bias) is met in (practically) every case and not in one case out of three
+    seed0 = seed
+    for k_ in range(SEED_SWEEP):
+        seed = (seed0 + 1 + 7919 * k_) % (2 ** 31 - 1)      # `make` reads the enclosing variable
+        try:
+            bk = call()
+        except Exception as e:
+            fails.add('graph_form_edgelist2' if amb else 'exception', f"{desc} with seed {seed} raised {type(e).__name__}: {e}")
+            break
+        tag = f"[seed {seed}] "
+        for v, b in bk.linear.items():
+            check_lin(tag + f"linear[{v!r}]", F(b))
+        for (u, v), b in bk.quadratic.items():
+            check_quad(tag + f"quadratic[{u!r},{v!r}]", F(b))
+            if frozenset((u, v)) not in edges:
+                fails.add(gwhat, f"{desc}: {tag}interaction {(u, v)!r} is not a declared edge")
+        check_off(tag + "offset", F(bk.offset))
+        if set(bk.variables) - set(nodes):
+            fails.add(gwhat, f"{desc}: {tag}variables {list(bk.variables)!r} but declared nodes are {nodes!r}")
+        if fails.items:
+            break
+    seed = seed0
     # --- reproducible from the seed, independent of numpy's global state, independent objects
     np.random.seed(54321)
     np.random.random(5)
